@@ -283,8 +283,17 @@ func (c *Crew) SetMachine(ctx context.Context, mid string, src *crew.SpecSource,
 
 // DeleteMachine removes a machine from the crew.
 //
-// No error is returned if the machine doesn't exist.
+// No error is returned if the machine doesn't exist.  The timers
+// machine and the captain cannot be deleted.
 func (c *Crew) DeleteMachine(ctx context.Context, mid string) error {
+	switch mid {
+	case TimersMachine, CaptainMachine:
+		// Every crew has these two (init makes them), so their
+		// absence cannot be reported or restored: a crew rebuilt
+		// from the reported changes would have them again (and
+		// the timers run whether or not their machine exists).
+		return fmt.Errorf("machine '%s' is part of the crew and cannot be deleted", mid)
+	}
 	delete(c.Machines, mid)
 	c.change(mid, func(ch *Changed) { ch.Deleted = true })
 	return nil
